@@ -20,7 +20,7 @@ use std::process::{Command, Stdio};
 use std::sync::atomic::{AtomicUsize, Ordering};
 use std::sync::{Arc, Mutex};
 
-pub const FAMILIES: [&str; 58] = [
+pub const FAMILIES: [&str; 72] = [
     "block-literal-lines",
     "block-folded-long-lines",
     "block-wide-indent",
@@ -80,6 +80,21 @@ pub const FAMILIES: [&str; 58] = [
     "wide-blockseq-then-deep-nest",
     "wide-flowmap-then-deep-nest",
     "wide-flowseq-then-deep-flow-nests",
+    // one scalar made of thousands of repetitions of a fold / escape / blank-line unit
+    "units-dq-escaped-break-blank-line",
+    "units-dq-escaped-break",
+    "units-dq-blank-lines",
+    "units-dq-trailing-blanks-break",
+    "units-dq-escaped-blank-break",
+    "units-dq-tab-break",
+    "units-sq-blank-lines",
+    "units-sq-quote-break",
+    "units-plain-blank-lines",
+    "units-plain-trailing-blanks",
+    "units-folded-blank-lines",
+    "units-folded-more-indented",
+    "units-literal-blank-indented",
+    "units-flow-dq-escaped-break-blank-line",
 ];
 pub const APIS: [&str; 5] = ["iter-str", "iter-buffered", "load-yaml", "load-lazy", "load-marked"];
 /// The level-scaled scenarios (known findings of the eager loaders) leave the lazy route out: it is the same loader.
@@ -212,6 +227,30 @@ pub fn render(family: &str, bytes: usize) -> String {
             while s.len() < bytes {
                 s.push_str("--- a\n...\n");
             }
+        }
+        f if f.starts_with("units-") => {
+            let (open, unit, close): (&str, &str, &str) = match f {
+                "units-dq-escaped-break-blank-line" => ("key: \"", "x\\\n\n ", "end\"\n"),
+                "units-dq-escaped-break" => ("key: \"", "x\\\n  ", "end\"\n"),
+                "units-dq-blank-lines" => ("key: \"", "x\n\n\n  ", "end\"\n"),
+                "units-dq-trailing-blanks-break" => ("key: \"", "x   \n  ", "end\"\n"),
+                "units-dq-escaped-blank-break" => ("key: \"", "x\\ \n ", "end\"\n"),
+                "units-dq-tab-break" => ("key: \"", "x\t\n \t", "end\"\n"),
+                "units-sq-blank-lines" => ("key: '", "x\n\n\n  ", "end'\n"),
+                "units-sq-quote-break" => ("key: '", "''\n  ", "end'\n"),
+                "units-plain-blank-lines" => ("key: start\n  ", "x\n\n\n  ", "end\n"),
+                "units-plain-trailing-blanks" => ("key: start\n  ", "x  \t \n  ", "end\n"),
+                "units-folded-blank-lines" => ("key: >\n", "  x\n\n\n", "  end\n"),
+                "units-folded-more-indented" => ("key: >\n", "  x\n    y\n\n", "  end\n"),
+                "units-literal-blank-indented" => ("key: |\n", "  x\n      \n\n", "  end\n"),
+                "units-flow-dq-escaped-break-blank-line" => ("[a, \"", "x\\\n\n ", "end\", b]\n"),
+                _ => ("key: \"", "x ", "end\"\n"),
+            };
+            s.push_str(open);
+            while s.len() < bytes {
+                s.push_str(unit);
+            }
+            s.push_str(close);
         }
         "dq-escapes-folded" => {
             s.push_str("key: \"");
@@ -694,6 +733,10 @@ pub fn run(cfg: &Config) -> (i32, J) {
     for n in sizes(&cfg.tier) {
         for f in FAMILIES {
             for a in apis {
+                // the scalar-unit families differ in the scanner only: one iterator, one loader
+                if f.starts_with("units-") && !matches!(*a, "iter-str" | "load-yaml") {
+                    continue;
+                }
                 jobs.push((f.to_string(), a.to_string(), n));
             }
         }
